@@ -61,13 +61,21 @@ def call(cs, f, s):
         return f.relabel_level_drop(**{'index' if cs['axis'] == 0 else 'columns': cs['n']})
     if op == 'f_rehierarch':
         return f.rehierarch(**{'index' if cs['axis'] == 0 else 'columns': list(cs['dm'])})
+    if op in ('s_map', 'f_map'):
+        node = (s if op == 's_map' else f).iter_element()
+        mapping = {P.dec(k): P.dec(v) for k, v in zip(cs['keys'], cs['vals'])}
+        if cs['mode'] == 'any':
+            return node.map_any(mapping)
+        if cs['mode'] == 'fill':
+            return node.map_fill(mapping, fill_value=P.dec(cs['v']))
+        return node.map_all(mapping)
     raise ValueError('unknown op %r' % op)
 
 
 OPS = ('s_reindex', 'f_reindex', 's_roll', 's_shift', 'f_roll', 'f_shift', 's_head', 'f_head', 's_duplicated', 's_drop_duplicated',
        'f_duplicated', 'f_drop_duplicated', 's_isin', 'f_isin', 'f_transpose', 's_clip', 'f_clip',
-       's_level_add', 's_level_drop', 's_rehierarch', 'f_level_add', 'f_level_drop', 'f_rehierarch')
-HIER_OPS = OPS[-6:]
+       's_level_add', 's_level_drop', 's_rehierarch', 'f_level_add', 'f_level_drop', 'f_rehierarch', 's_map', 'f_map')
+HIER_OPS = OPS[-8:-2]
 
 
 def _target(rng, labels):
@@ -185,10 +193,41 @@ def gen_hier(rng, op):
     return {'op': op, 'f': f, 'axis': axis, 'dm': _depth_map(rng, depth)}, lay
 
 
+def gen_map(rng, op):
+    if op == 's_map':
+        s = C.rand_series(rng, 5, kinds='ifU', na=0.2, index_kind=rng.choice(['str', 'int']))          # (no Booleans: a list mixing True with numbers is cast to numbers, C07-bool-in-iterable-cast-to-number)
+        pool = list(s['vals'])
+        subj = {'s': s}
+        lay = None
+    else:
+        f = C.rand_frame(rng, 3, 4, kinds=rng.choice(['if', 'if', 'iU', 'ifU']), na=0.15, index_kind='str', columns_kind='str')
+        pool = [v for c in f['cols'] for v in c['vals']]
+        subj = {'f': f}
+        lay = C.rand_layout(rng, f)
+    pool = [v for v in pool if v[0] not in ('nan', 'nat')]
+    keys = []
+    for v in rng.sample(pool, min(len(pool), rng.randint(0, 3))) + rng.sample([['i', 55], ['s', 'zz'], ['none'], ['i', 1], ['f', 1, 2]], rng.randint(0, 2)):
+        # one dictionary key per distinct value (1, 1.0 and True are ONE key)
+        def same(a, b):
+            num = lambda x: x[0] in ('i', 'b', 'f')
+            if num(a) and num(b):
+                q = lambda x: (x[1], 1) if x[0] != 'f' else (x[1], x[2])
+                return q(a)[0] * q(b)[1] == q(b)[0] * q(a)[1]
+            return a == b
+        if not any(same(v, k) for k in keys):
+            keys.append(v)
+    vals = [rng.choice([['i', 10], ['s', 'x'], ['f', 3, 2], ['i', -1], ['none'], ['s', 'long text']]) for _ in keys]
+    mode = rng.choice(['any', 'any', 'fill', 'all'])
+    cs = dict(op=op, keys=keys, vals=vals, mode=mode, v=rng.choice([['i', -1], ['none'], ['s', 'F'], ['nan']]), **subj)
+    return cs, lay
+
+
 def gen_case(rng):
     op = rng.choice(OPS)
     if op in HIER_OPS:
         return gen_hier(rng, op)
+    if op in ('s_map', 'f_map'):
+        return gen_map(rng, op)
     ik = rng.choice(['str', 'int', 'intshift'])
     if op.startswith('s_'):
         if op in ('s_duplicated', 's_drop_duplicated'):
